@@ -17,6 +17,9 @@ pub enum Class {
     MissedFault,
     SpuriousErr,
     Panic,
+    /// both sides refuse the instruction, but the emulator has already changed registers or memory
+    /// (the CPU leaves a faulting instruction without effect: it is restartable)
+    FaultState,
 }
 
 #[derive(Clone, Debug)]
@@ -171,7 +174,28 @@ pub fn compare(t: &Trial, ins: &Instruction, hw: &HwPost, hw_mem: &[Vec<u8>], pr
             };
             return Outcome::Disagree(vec![Diff { class: Class::MissedFault, key: "fault".to_string(), detail: format!("CPU raised {} but step() returned Ok", sig_name(s)) }]);
         }
-        (EmuResult::Err { .. }, false) => return Outcome::BothFault,
+        (EmuResult::Err { .. }, false) => {
+            // "reports an error instead of producing a result": after a fault the CPU's registers and memory are the
+            // pre-state (hw / hw_mem hold it); RIP and flags are not compared (the emulator advances RIP before executing)
+            let mut what: Vec<String> = Vec::new();
+            if let Some(i) = (0..16).find(|&i| hw.gpr[i] != emu.gpr[i]) {
+                what.push(format!("{}: {:#x} -> {:#x}", GPR_NAMES[i], hw.gpr[i], emu.gpr[i]));
+            }
+            if let Some(i) = (0..16).find(|&i| hw.xmm[i] != emu.xmm[i]) {
+                what.push(format!("xmm{} changed", i));
+            }
+            if hw.fs != emu.fs || hw.gs != emu.gs {
+                what.push("segment base changed".into());
+            }
+            if let Some(d) = emu_mem_diff(emu, hw_mem) {
+                what.push(format!("memory {}", d));
+            }
+            if what.is_empty() {
+                return Outcome::BothFault;
+            }
+            let key = if what[0].starts_with("memory") { "memory" } else if what[0].starts_with("xmm") { "xmm" } else if what[0].starts_with("segment") { "seg" } else { "gpr" };
+            return Outcome::Disagree(vec![Diff { class: Class::FaultState, key: key.into(), detail: format!("both refuse the instruction, but the failed step left effects behind: {}", what.join("; ")) }]);
+        }
         (EmuResult::Ok, true) => {}
     }
     let mut diffs = Vec::new();
@@ -483,13 +507,13 @@ fn reports(prop: &str, fam: Family, ins: &Instruction, class: Class) -> bool {
             _ => false,
         },
         "C04" => match fam {
-            Family::Stack => matches!(class, Rip | Gpr | Xmm | Mem | Seg | Flags),
+            Family::Stack => matches!(class, Rip | Gpr | Xmm | Mem | Seg | Flags | FaultState),
             // RET's new RIP is the content of the slot it consumed: the only place where the slot choice shows
-            Family::CallRet => matches!(class, Gpr | Xmm | Mem | Seg | Flags) || (class == Rip && ins.mnemonic() == iced_x86::Mnemonic::Ret),
+            Family::CallRet => matches!(class, Gpr | Xmm | Mem | Seg | Flags | FaultState) || (class == Rip && ins.mnemonic() == iced_x86::Mnemonic::Ret),
             _ => false,
         },
         "C05" => is_address_probe(ins) && matches!(class, Gpr | Xmm | Mem | Rip | Seg | SpuriousErr | Panic),
-        "C06" => matches!(class, MissedFault | SpuriousErr | Panic),
+        "C06" => matches!(class, MissedFault | SpuriousErr | Panic | FaultState),
         "census" => false,
         _ => false,
     }
